@@ -375,3 +375,109 @@ B('pkgL_b_exc_line_private_helper_top_down', ['C20'], 'R20.f',
                      "            head, sep, _ = line.partition(':')\n"
                      "            if sep and head and len(head.split()) == 1:\n                return line\n"
                      "        return lines[0]\n\n" + _FROM_STRING))
+
+
+# ------------------------------------------------------------------ R20.g: what the child wrote to stderr is what the hook is given
+_CONSUME = ("        def consume_lines():\n            for line in iter(child_proc.stderr.readline, ''):\n                if not line:\n                    break\n"
+            "                line_text = line.decode('utf8')\n                if line_text.startswith(_MON_PREFIX):\n"
+            "                    to_mon[:] = literal_eval(line_text[len(_MON_PREFIX):])\n                else:\n"
+            "                    sys.stderr.write(line_text)\n                    stderr_buff.append(line_text)\n")
+_BRANCHES = ("                if line_text.startswith(_MON_PREFIX):\n"
+             "                    to_mon[:] = literal_eval(line_text[len(_MON_PREFIX):])\n                else:\n"
+             "                    sys.stderr.write(line_text)\n                    stderr_buff.append(line_text)\n")
+_JOIN = "            tb_str = ''.join(stderr_buff)\n"
+_HOOK = "            err_server = error_func(tb_str, to_mon)\n"
+_WAIT = ("            try:\n                reloader_loop(to_mon, 1)\n            except KeyboardInterrupt:\n                return 0\n"
+         "            except SystemExit as se:\n                if se.code == 3:\n                    continue\n                return se.code\n"
+         "            finally:\n                err_server.shutdown()\n                err_server.server_close()\n            return 0\n")
+_BUILDER = ("        from clastic import flaw\n        err_app = flaw.create_app(tb_str, monitored_files)\n"
+            "        err_server = make_server(hostname, port, err_app)\n"
+            "        thread.start_new_thread(err_server.serve_forever, ())\n        return err_server\n")
+
+B('pkgL_b_reader_guard_clause_inverted', ['C20'], 'R20.g',
+  (SV, _BRANCHES, "                if line_text.startswith(_MON_PREFIX):\n                    sys.stderr.write(line_text)\n"
+                  "                    stderr_buff.append(line_text)\n                    continue\n"
+                  "                to_mon[:] = literal_eval(line_text[len(_MON_PREFIX):])\n"))
+B('pkgL_b_reader_strips_other_prefix', ['C20'], 'R20.g',
+  (SV, "_STDERR_BUFF_SIZE = 1024\n", "_STDERR_BUFF_SIZE = 1024\n_MON_TAG = '__clastic_mon_files'\n"),
+  (SV, "literal_eval(line_text[len(_MON_PREFIX):])", "literal_eval(line_text[len(_MON_TAG):])"))
+B('pkgL_b_child_writes_other_prefix', ['C20'], 'R20.g',
+  (SV, "_STDERR_BUFF_SIZE = 1024\n", "_STDERR_BUFF_SIZE = 1024\n_MON_REPORT = '__clastic_monitored:'\n"),
+  (SV, "sys.stderr.write('%s%r\\n' % (_MON_PREFIX, mon_list))", "sys.stderr.write('%s%r\\n' % (_MON_REPORT, mon_list))"))
+B('pkgL_b_hook_given_one_line', ['C20'], 'R20.g', (SV, _JOIN, "            tb_str = stderr_buff[-1]\n"))
+B('pkgL_b_hook_given_join_of_other_list', ['C20'], 'R20.g', (SV, _JOIN, "            tb_str = ''.join(to_mon)\n"))
+B('pkgL_b_reader_collects_into_own_buffer', ['C20'], 'R20.g',
+  (SV, "        def consume_lines():\n", "        def consume_lines():\n            stderr_buff = deque(maxlen=_STDERR_BUFF_SIZE)\n"))
+B('pkgL_b_report_parsed_from_every_line', ['C20'], 'R20.g',
+  (SV, _BRANCHES, "                to_mon[:] = literal_eval(line_text[len(_MON_PREFIX):])\n"
+                  "                if not line_text.startswith(_MON_PREFIX):\n"
+                  "                    sys.stderr.write(line_text)\n                    stderr_buff.append(line_text)\n"))
+T('pkgL_t_reader_guard_clause', ['C20'],
+  (SV, _BRANCHES, "                if not line_text.startswith(_MON_PREFIX):\n                    sys.stderr.write(line_text)\n"
+                  "                    stderr_buff.append(line_text)\n                    continue\n"
+                  "                report = line_text[len(_MON_PREFIX):]\n                to_mon[:] = literal_eval(report)\n"))
+T('pkgL_t_reader_prefix_length_named', ['C20'],
+  (SV, "        def consume_lines():\n", "        skip = len(_MON_PREFIX)\n\n        def consume_lines():\n"),
+  (SV, "literal_eval(line_text[len(_MON_PREFIX):])", "literal_eval(line_text[skip:])"))
+T('pkgL_t_reader_partition_strip', ['C20'],
+  (SV, "literal_eval(line_text[len(_MON_PREFIX):])", "literal_eval(line_text.partition(_MON_PREFIX)[2])"))
+T('pkgL_t_hook_text_joined_inline', ['C20'],
+  (SV, _JOIN + _HOOK, "            err_server = error_func(''.join(stderr_buff), to_mon)\n"))
+T('pkgL_t_hook_text_join_of_copy', ['C20'],
+  (SV, _JOIN, "            collected = stderr_buff\n            tb_str = u''.join(list(collected))\n"))
+T('pkgL_t_child_report_by_format', ['C20'],
+  (SV, "sys.stderr.write('%s%r\\n' % (_MON_PREFIX, mon_list))", "report_line = '{0}{1!r}\\n'.format(_MON_PREFIX, mon_list)\n            sys.stderr.write(report_line)"))
+
+# ------------------------------------------------------------------ R20.h: the failsafe is served, and taken down on every way round the loop
+B('pkgL_b_cleanup_only_after_normal_wait', ['C20'], 'R20.h',
+  (SV, "            finally:\n                err_server.shutdown()\n                err_server.server_close()\n            return 0\n",
+       "            err_server.shutdown()\n            err_server.server_close()\n            return 0\n"))
+B('pkgL_b_cleanup_in_handlers_but_not_on_restart', ['C20'], 'R20.h',
+  (SV, _WAIT, "            try:\n                reloader_loop(to_mon, 1)\n            except KeyboardInterrupt:\n                code = 0\n"
+              "            except SystemExit as se:\n                if se.code == 3:\n                    continue\n                code = se.code\n"
+              "            else:\n                code = 0\n            err_server.shutdown()\n            err_server.server_close()\n            return code\n"))
+B('pkgL_b_hook_result_dropped', ['C20'], 'R20.h',
+  (SV, _HOOK, "            error_func(tb_str, to_mon)\n"),
+  (SV, "            finally:\n                err_server.shutdown()\n                err_server.server_close()\n", ""))
+B('pkgL_b_hook_called_without_guard', ['C20'], 'R20.h',
+  (SV, "        elif error_func and exit_code == 1 and stderr_buff:\n", "        elif exit_code == 1 and stderr_buff:\n"))
+B('pkgL_b_hook_guard_inverted_in_predicate', ['C20'], 'R20.h',
+  (SV, "        elif error_func and exit_code == 1 and stderr_buff:\n", "        elif _wants_error_page(error_func, exit_code, stderr_buff):\n"),
+  (SV, "def restart_with_reloader(error_func=None):\n",
+       "def _wants_error_page(error_func, exit_code, stderr_buff):\n    if error_func:\n        return False\n"
+       "    return exit_code == 1 and bool(stderr_buff)\n\n\ndef restart_with_reloader(error_func=None):\n"))
+B('pkgL_b_error_server_serves_the_real_app', ['C20'], 'R20.h',
+  (SV, "        err_server = make_server(hostname, port, err_app)\n", "        err_server = make_server(hostname, port, application)\n"))
+B('pkgL_b_error_server_never_started', ['C20'], 'R20.h',
+  (SV, "        thread.start_new_thread(err_server.serve_forever, ())\n        return err_server\n", "        return err_server\n"))
+B('pkgL_b_error_app_returned_instead_of_server', ['C20'], 'R20.h',
+  (SV, "        thread.start_new_thread(err_server.serve_forever, ())\n        return err_server\n",
+       "        thread.start_new_thread(err_server.serve_forever, ())\n        return err_app\n"))
+T('pkgL_t_cleanup_spelled_on_every_way', ['C20'],
+  (SV, _WAIT, "            try:\n                reloader_loop(to_mon, 1)\n            except KeyboardInterrupt:\n                code = 0\n"
+              "            except SystemExit as se:\n                code = se.code\n"
+              "            else:\n                code = 0\n            err_server.shutdown()\n            err_server.server_close()\n"
+              "            if code == 3:\n                continue\n            return code\n"))
+T('pkgL_t_cleanup_public_helper', ['C20'],
+  (SV, "            finally:\n                err_server.shutdown()\n                err_server.server_close()\n",
+       "            finally:\n                stop_server(err_server)\n"),
+  (SV, "def restart_with_reloader(error_func=None):\n",
+       "def stop_server(server):\n    server.shutdown()\n    server.server_close()\n\n\ndef restart_with_reloader(error_func=None):\n"))
+T('pkgL_t_wait_else_return', ['C20'],
+  (SV, "            finally:\n                err_server.shutdown()\n                err_server.server_close()\n            return 0\n",
+       "            else:\n                return 0\n            finally:\n                err_server.shutdown()\n                err_server.server_close()\n"))
+T('pkgL_t_hook_guard_named', ['C20'],
+  (SV, "        if exit_code == 3:\n            continue\n        elif error_func and exit_code == 1 and stderr_buff:\n",
+       "        if exit_code == 3:\n            continue\n        show_error = error_func is not None and exit_code == 1 and len(stderr_buff) > 0\n"
+       "        if show_error:\n"))
+T('pkgL_t_hook_guard_private_predicate', ['C20'],
+  (SV, "        elif error_func and exit_code == 1 and stderr_buff:\n", "        elif _wants_error_page(error_func, exit_code, stderr_buff):\n"),
+  (SV, "def restart_with_reloader(error_func=None):\n",
+       "def _wants_error_page(error_func, exit_code, stderr_buff):\n    if not error_func:\n        return False\n"
+       "    return exit_code == 1 and bool(stderr_buff)\n\n\ndef restart_with_reloader(error_func=None):\n"))
+T('pkgL_t_error_server_thread_object', ['C20'],
+  (SV, "        thread.start_new_thread(err_server.serve_forever, ())\n",
+       "        import threading\n        worker = threading.Thread(target=err_server.serve_forever)\n        worker.daemon = True\n        worker.start()\n"))
+T('pkgL_t_error_server_built_inline', ['C20'],
+  (SV, _BUILDER, "        from clastic.flaw import create_app\n        server = make_server(hostname, port, create_app(tb_str, monitored_files))\n"
+                 "        thread.start_new_thread(server.serve_forever, ())\n        failsafe = server\n        return failsafe\n"))
